@@ -227,11 +227,31 @@ class ArrV(Value):
                 return ArrV(self.term, new, self.dtype, squeezed_axes(self.shape, self.axes, new), {'reshape_of': self})
             return PyFunc(reshape, 'Array.reshape')
         if name == 'astype':
-            return PyFunc(lambda interp, dt: ArrV(self.term, self.shape, dt, self.axes), 'Array.astype')
+            return PyFunc(lambda interp, dt: ArrV(cast_term(self.term, self.dtype, dt), self.shape, dt, self.axes), 'Array.astype')
         raise Unsupported(f'array attribute {name}')
 
     def py_iter(self, interp, expect=None):
         raise Unsupported('iteration over an array in the point facet')
+
+
+f_intcast = z3.Function('CastInt', R, z3.IntSort(), R)
+
+
+def _is_int_dtype(dt):
+    return isinstance(dt, Ext) and 'int' in dt.path.rsplit('.', 1)[-1]
+
+
+def cast_term(term, src, dst):
+    """x.astype(dt): the same elements under the real-arithmetic reading of floating point — EXCEPT for an array of an
+    integer dtype (pixel numbers, indices) converted to another dtype: a float holds integers exactly only up to its
+    mantissa and a narrower integer wraps, so the converted value is the uninterpreted CastInt(value, dtype)"""
+    if not _is_int_dtype(src):
+        return term
+    if _is_int_dtype(dst) and dst.path.rsplit('.', 1)[-1] == src.path.rsplit('.', 1)[-1]:
+        return term
+    import zlib
+    code = zlib.crc32(str(getattr(dst, 'path', repr(dst))).encode()) % 1000003
+    return f_intcast(term, z3.IntVal(code))
 
 
 def squeezed_axes(old_shape, axes, new_shape):
@@ -811,7 +831,7 @@ def install(T: Theory):
     @T.ext('jax.numpy.astype')
     def _astype(interp, x, dtype):
         if isinstance(x, ArrV):
-            return ArrV(x.term, x.shape, dtype, x.axes, {'astype_of': x})
+            return ArrV(cast_term(x.term, x.dtype, dtype), x.shape, dtype, x.axes, {'astype_of': x})
         return ArrV(term_of(x), (), dtype, None, {'astype_of': x})
 
     @T.ext('jax.numpy.result_type')
@@ -929,7 +949,8 @@ def install(T: Theory):
 
     @T.ext('jax_healpy.ang2pix')
     def _ang2pix(interp, nside, theta, phi, **kw):
-        return elementwise(f_ang2pix, 'ang2pix')(interp, nside, theta, phi)
+        r = elementwise(f_ang2pix, 'ang2pix')(interp, nside, theta, phi)
+        return ArrV(r.term, r.shape, Ext('numpy.int64'), r.axes)          # pixel numbers are integers
 
     T.externals['jax.jit'] = lambda interp, f=None, **kw: f
     T.externals['jax.vmap'] = lambda interp, f=None, **kw: f
